@@ -254,6 +254,18 @@ def end_to_end(ck, rng, thorough):
                                     rp | {'argv': ['-j'], 'environment': envx, 'file': os.path.basename(path)}, 'e2e_encoding')
                             break
                 names, d = names_all, d_all
+            # stdout on a terminal (80 columns), with and without a request for colour: what appears there is the same JSON document
+            if rnd == 0 or rng.random() < 0.3:
+                for n in [x for x in names if dict(files)[x][24:25] != b'x'][:2]:
+                    for envx in ({}, {'CLICOLOR_FORCE': '1', 'TERM': 'xterm-256color'}):
+                        so, sx = common.run_on_pty([common.PY, '-W', 'ignore', clirun.PELTOOL, '-f', os.path.join(d, n), '-E'], env=dict(common.child_env(), **envx))
+                        ck.count('end-to-end -f on a terminal')
+                        try:
+                            ok = sx == 0 and json.loads(so) == want[n][1]
+                        except Exception:
+                            ok = False
+                        if not ok:
+                            ck.fail('with stdout on a terminal the text printed by -f does not parse back to the decoded document', rp | {'argv': ['-f', n], 'environment': envx, 'stdout': so[:300]}, 'e2e_terminal')
             # a file that holds a complete second PEL after the first one: -f shows ONE document (the PEL the file starts with)
             if len(names) >= 2:
                 two = os.path.join(tmp, 'two_in_one_%d' % rnd)
